@@ -1,8 +1,10 @@
 package c18
 
 import (
+	"runtime/debug"
 	"testing"
 
+	"github.com/samsarahq/thunder/graphql"
 	"github.com/samsarahq/thunder/verifharness/vlib"
 )
 
@@ -10,9 +12,22 @@ func TestCheck(t *testing.T) {
 	run := vlib.Start(t, "C18", "exploration")
 	defer run.Finish()
 	Describe(run)
+	// Thunder's public nesting limit, lowered so that "more list literals
+	// than the limit" needs a few hundred of them instead of a thousand.
+	graphql.MaxQueryNesting = ListLiteralBudget
+	// The run allocates many short-lived request objects on a small live
+	// heap; collect less often (bounded by a memory limit).
+	debug.SetGCPercent(400)
+	debug.SetMemoryLimit(3 << 30)
 	n := run.N(40000, 1000000)
 	run.Each(n, 8, func(i int) {
 		Case(run, i)
+		if i%4 == 1 {
+			pagLeg(run, i)
+		}
+		if i%16 == 8 {
+			manyListsLeg(run, i)
+		}
 		if i%16 == 0 {
 			ConcurrentCase(run, i, i%32 == 0)
 		}
